@@ -36,6 +36,8 @@ OffsetsChain(us) == \A i \in 1..(Len(us) - 1) :
 
 Verdict(e) ==
   IF ~e.des_ok THEN [c |-> "Deserialises", alarm |-> TRUE, at |-> <<0, 0>>]
+  \* the deserialised slices (coordinates, value counts) do not fit the deserialised geometry
+  ELSE IF ~e.recon_ok THEN [c |-> "SlicePlacement", alarm |-> TRUE, at |-> <<0, 0>>]
   ELSE IF Len(e.vunits) # Len(e.dunits)
        THEN [c |-> "UnitCount", alarm |-> TRUE, at |-> <<Len(e.vunits), Len(e.dunits)>>]
   ELSE IF e.vunits # e.dunits
